@@ -1,7 +1,26 @@
-//! op "ovl" (stub: answers bad-op until the engine is built)
+//! op "ovl": {"op":"ovl","f":"list","prelude":src,"name":"eq","args":"n:Sequence:1 i n:Sequence:1 i"}
+//! -> {"cands":["s x:-:2:2 i i b", "d x:…", "dfail", …]}: the candidates overload resolution iterates over for
+//! `name` at the root scope (standard library + prelude) for these argument types.
 
+use crate::run::{R, T, W};
 use serde_json::{json, Value};
+use xray::builtin::verif_hooks::ovl as hooks;
+use xray::root_compilation_scope::RootCompilationScope;
+use xray::std_compilation_scope;
 
-pub fn op(_req: &Value) -> Value {
-    json!({"bad-op": true})
+pub fn op(req: &Value) -> Value {
+    match req["f"].as_str().unwrap_or("") {
+        "list" => {
+            let mut comp: RootCompilationScope<W, R, T> = std_compilation_scope();
+            if let Err(e) = comp.feed_file(req["prelude"].as_str().unwrap_or("")) {
+                return json!({ "prelude-error": format!("{e}") });
+            }
+            let toks: Vec<&str> = req["args"].as_str().unwrap_or("").split(' ').filter(|s| !s.is_empty()).collect();
+            match hooks::list_overloads(&mut comp, req["name"].as_str().unwrap_or(""), &toks) {
+                Ok(c) => json!({ "cands": c }),
+                Err(e) => json!({ "error": e }),
+            }
+        }
+        _ => json!({"bad-op": true}),
+    }
 }
